@@ -231,10 +231,46 @@ def config_pass(ctx: core.Ctx):
                 bad.append((s_.lineno, ast.unparse(s_)[:80]))
             if isinstance(s_, ast.Assign) and any(isinstance(t, ast.Subscript) and ast.unparse(t.value) == "config" for t in s_.targets):
                 bad.append((s_.lineno, ast.unparse(s_)[:80]))
+        # the guards of the two conversions: defaults only for an absent config, Config(**config) only for a dict
+        from .. import estflow, rtmodel, normast
+        from .c17 import _paths
+        fnn = normast.Normaliser(None).function(fn)
+        for path in _paths(fnn.body):
+            conds = []
+            for e in path:
+                if e[0] == "cond":
+                    conds.append((rtmodel.py_expr(e[1]), e[2]))
+                elif e[0] == "stmt" and isinstance(e[1], ast.Assign) and any(isinstance(t, ast.Name) and t.id == "config" for t in e[1].targets):
+                    v = ast.unparse(e[1].value).replace(" ", "")
+                    lits = estflow.literals(conds)
+                    if v == "Config()":
+                        okg = lits is not None and any(estflow.is_none_test(l, ("ref", "config")) for l in lits)
+                        if not okg:
+                            bad.append((e[1].lineno, "config = Config() not guarded by `config is None`"))
+                    elif v == "Config(**config)":
+                        okg = lits is not None and any(l[1] and l[0][0] == "call" and l[0][1] == "isinstance" and len(l[0][2]) == 2
+                                                       and l[0][2][0] == ("ref", "config") and l[0][2][1] == ("ref", "dict") for l in lits)
+                        if not okg:
+                            bad.append((e[1].lineno, "config = Config(**config) not guarded by `isinstance(config, dict)`"))
+        # the same for the calibration map: only an absent map is read as empty
+        if "calibration_map" in [a.arg for a in fn.args.args + fn.args.kwonlyargs]:
+            for path in _paths(fnn.body):
+                conds = []
+                for e in path:
+                    if e[0] == "cond":
+                        conds.append((rtmodel.py_expr(e[1]), e[2]))
+                    elif e[0] == "stmt" and isinstance(e[1], ast.Assign) and any(isinstance(t, ast.Name) and t.id == "calibration_map" for t in e[1].targets):
+                        v = ast.unparse(e[1].value).replace(" ", "")
+                        lits = estflow.literals(conds)
+                        okg = v in ("{}", "dict()") and lits is not None and any(estflow.is_none_test(l, ("ref", "calibration_map")) for l in lits)
+                        if not okg:
+                            bad.append((e[1].lineno, f"calibration_map = {v[:40]} (other than reading an absent map as empty)"))
+        bad = sorted(set(bad))
         ctx.oblige("CONFIG-PASS", f"{rel}:{qual}", "config -> Config() | Config(**config) only", not bad, file=rel, func=qual,
                    construct="config alteration:" + ";".join(b[1] for b in bad),
-                   msg=f"{qual} alters the caller's configuration before it is used ({'; '.join(b[1] + ' (line ' + str(b[0]) + ')' for b in bad)}): "
-                       f"a documented setting such as innovation_filtering=None (filtering disabled) is silently replaced", line=bad[0][0] if bad else None)
+                   msg=f"{qual} alters the caller's configuration / calibration before it is used ({'; '.join(b[1] + ' (line ' + str(b[0]) + ')' for b in bad)}): "
+                       f"a documented setting such as innovation_filtering=None (filtering disabled), or the calibration the caller gave, is silently replaced",
+                   line=bad[0][0] if bad else None)
     ctx.floor("CONFIG-PASS", n, 7, "config entry sites")
 
 
